@@ -131,6 +131,10 @@ func runNative(l *loaded, pkgDir string, cases []nativeCase, workDir string) ([]
 	os.WriteFile(testFile, []byte(tb.String()), 0o644)
 	ov := map[string]string{}
 	for virt, real := range l.overlay {
+		if real == "" {
+			real = filepath.Join(workDir, "gen_"+filepath.Base(virt))
+			os.WriteFile(real, l.ovBytes[virt], 0o644)
+		}
 		ov[virt] = real
 	}
 	ov[filepath.Join(target, "zz_verif_replay_test.go")] = testFile
